@@ -53,6 +53,7 @@ def gen_def(rng, l2_safe=False):
     cfg["default_byte_order"] = rng.choice([None, "LE", "BE"])
     cfg["default_bit_order"] = rng.choice([None, None, "LSB0", "MSB0"])
     cfg["default_field_access"] = rng.choice([None, None, "RW", "RO"] + ([] if l2_safe else ["WO"]))
+    cfg["default_register_access"] = rng.choice([None, None, "RW", "RO", "WO"])
     objs = []
     used = set()
     for i in range(rng.choice([1, 2, 3])):
@@ -64,7 +65,9 @@ def gen_def(rng, l2_safe=False):
             size = rng.choice(sizes)
             if bo is None and cfg["default_byte_order"] is None and size > 8:
                 bo = rng.choice(["LE", "BE"])
-            objs.append(adef.mk_register(name, i, size, gen_fields(rng, size, l2_safe), byte_order=bo, bit_order=bi))
+            # the register's own access (and the global default) must not influence which FIELD accessors exist
+            objs.append(adef.mk_register(name, i, size, gen_fields(rng, size, l2_safe), byte_order=bo, bit_order=bi,
+                                         access=rng.choice([None, None, "RW", "RO", "WO"])))
         else:
             si = rng.choice([None, 8, 16, 24])
             so = rng.choice([None, 4, 8, 32])
